@@ -21,6 +21,7 @@ import (
 	"verif.local/harness/px"
 	"verif.local/seqx"
 	"verif.local/vrt"
+	"verif.local/vrt/vctx"
 )
 
 const tInt = conformance.IntResourceType
@@ -110,7 +111,7 @@ func renderList(m map[string]string) string {
 }
 
 func body(c cfg, x *explore.X) {
-	ctx, cancel := context.WithCancel(context.Background())
+	ctx, cancel := vctx.WithCancel(context.Background())
 	log := &hx.Log{}
 	st := state.WrapCore(hx.NewNamespaced(log))
 	for _, op := range c.pre {
@@ -144,6 +145,7 @@ func body(c cfg, x *explore.X) {
 		if err != nil {
 			return nil //nolint:nilerr // cancelled during shutdown
 		}
+		vrt.TouchKey("c15.reads", true)
 		reads = append(reads, read{"c0", "list", lo, log.Len(), hx.SnapList(l)})
 		lastList, lastStart = hx.SnapList(l), start
 		nRec++
@@ -172,6 +174,7 @@ func body(c cfg, x *explore.X) {
 				if err != nil {
 					return
 				}
+				vrt.TouchKey("c15.reads", true)
 				reads = append(reads, read{who, "list", lo, log.Len(), hx.SnapList(l)})
 				vrt.Yield()
 				lo = log.Len()
@@ -182,6 +185,7 @@ func body(c cfg, x *explore.X) {
 				} else if !state.IsNotFoundError(err) {
 					return
 				}
+				vrt.TouchKey("c15.reads", true)
 				reads = append(reads, read{who, "get a", lo, log.Len(), s})
 			}
 		})
@@ -191,6 +195,7 @@ func body(c cfg, x *explore.X) {
 		doW(ctx, st, op)
 	}
 	vrt.WaitQuiescent()
+	vrt.TouchKey("c15.reads", true)
 	// ---- oracles
 	states := prefixStates(log)
 	n := log.Len()
@@ -549,15 +554,20 @@ done:
 }
 
 func build(tier string) []explore.Scenario {
-	b0, b1 := []int{0}, []int{0, 1}
+	// with happens-before pruning one more preemption than the plain search could afford
+	b0, b1 := []int{0, 1}, []int{0, 1, 2}
 	if tier == "thorough" {
-		b0, b1 = []int{0, 1}, []int{0, 1, 2}
+		b0, b1 = []int{0, 1, 2}, []int{0, 1, 2, 3}
+	}
+	b2r := []int{0} // two free readers: bound 1 is 680 000 schedules even with pruning - thorough tier only
+	if tier == "thorough" {
+		b2r = b0
 	}
 	cs := []cfg{
 		{name: "bootstrap-race/2preexisting/1reader", pre: []wop{"create a", "create b"}, script: []wop{"update a"}, prologue: false, readers: 1, nReads: 1, bounds: b0},
 		{name: "steady/update-create/1reader", pre: []wop{"create a", "create b"}, script: []wop{"update a", "create c"}, prologue: true, readers: 1, nReads: 2, bounds: b0},
 		{name: "steady/update-destroy-unlabel/1reader", pre: []wop{"create a", "create b"}, script: []wop{"unlabel a", "destroy b"}, prologue: true, readers: 1, nReads: 2, bounds: b0},
-		{name: "steady/2readers", pre: []wop{"create a"}, script: []wop{"update a", "update a"}, prologue: true, readers: 2, nReads: 1, bounds: b0},
+		{name: "steady/2readers", pre: []wop{"create a"}, script: []wop{"update a", "update a"}, prologue: true, readers: 2, nReads: 1, bounds: b2r},
 		{name: "teardown-context/teardown", pre: []wop{"create a", "create b"}, script: []wop{"update a", "teardown a"}, prologue: true, readers: 0, bounds: b1, teardown: "a"},
 		{name: "teardown-context/destroy", pre: []wop{"create a", "create b"}, script: []wop{"destroy a"}, prologue: true, readers: 0, bounds: b1, teardown: "a"},
 		{name: "teardown-context/untouched", pre: []wop{"create a", "create b"}, script: []wop{"update b", "destroy b"}, prologue: true, readers: 0, bounds: b0, teardown: "a"},
@@ -570,6 +580,7 @@ func build(tier string) []explore.Scenario {
 			Name:   "runtime/" + c.name,
 			Desc:   fmt.Sprintf("real runtime with the Int kind cached, pre-existing %v, writer %v, a probe controller reading through the cache and %d free CachedState() reader(s); every cached read must be a complete store state at or after the bootstrap index, never older than the reader's previous read; at quiescence cached == uncached (incl. label/ID filtered lists) and the controller's last reconcile read the final state", c.pre, c.script, c.readers),
 			Bounds: c.bounds,
+			HB:     true,
 			Body:   func(x *explore.X) { body(c, x) },
 		})
 	}
